@@ -31,9 +31,10 @@ func enumStartedFace(thorough bool) map[string]any {
 	starts := []uint64{0, 1<<64 - 2}
 	fragCounts := []int{1, 2, 3}
 	if thorough {
-		mtus = []int{128, 129, 256, 1500}
-		starts = []uint64{0, 1, 1<<32 - 1, 1<<64 - 2, 1<<64 - 1}
-		fragCounts = []int{1, 2, 3, 4, 5}
+		// (bounded by the recording slots reserved for started faces: at most ~2000 cases)
+		mtus = []int{128, 256, 1500}
+		starts = []uint64{0, 1<<64 - 2, 1<<64 - 1}
+		fragCounts = []int{1, 2, 3, 4}
 	}
 	base := cfg{fragOn: true}
 	var cases, delivered int64
